@@ -13,7 +13,8 @@ EXTENDS Integers, Sequences, TLC, Json, BigInt
 CONSTANTS BinN,      \* set of N for the binomial
           EdgeMaxN,  \* P within 1e-12 of 0 or 1 is combined with N <= EdgeMaxN only (600-digit denominators otherwise)
           BinP,      \* set of <<a, b>> (BigInt naturals) with 0 <= a <= b
-          HypN       \* set of N for the hypergeometric (all K, n in 0..N)
+          HypN,      \* set of N for the hypergeometric (all K, n in 0..N)
+          WalkMax    \* the walk: N = 7 .. WalkMax one step at a time, carrying Pascal's rows N and N-7 (0: no walk)
 VARIABLES kind, par, done
 vars == <<kind, par, done>>
 Null == [null |-> TRUE]
@@ -43,12 +44,42 @@ SumB(m, i) == IF i = 0 THEN <<>> ELSE Add(m[i], SumB(m, i - 1))
 Mom1(m, lo, i) == IF i = 0 THEN <<>> ELSE Add(MulS(m[i], lo + i - 1), Mom1(m, lo, i - 1))
 Mom2(m, lo, i) == IF i = 0 THEN <<>> ELSE Add(MulS(m[i], (lo + i - 1) * (lo + i - 1)), Mom2(m, lo, i - 1))
 
-Init == kind \in {"binomial", "hypergeometric"} /\ par = Null /\ done = FALSE
-Choose1 == /\ par = Null /\ UNCHANGED <<kind, done>>
+\* ---- the walk: sizes far beyond the exhaustive grids, along a thin slice ----
+\* state: par = [N, row (Pascal's row N), lag (row N - 7)].  Each N >= WalkFrom emits Binomial(N, 1/2) = row / 2^N and the two
+\* hypergeometric families (N, 7, N div 2) and (N, N - 7, N div 3 + 3), whose masses are C(7,k) C(N-7, n-k) / C(N,n).
+WalkFrom == 21
+\* every size up to 400, then every 8th (a row of 1000 numbers of 300 digits is 300 kB of JSON), and the last one
+WalkEmitAt(N) == N >= WalkFrom /\ (N <= 400 \/ N % 8 = 0 \/ N = WalkMax)
+NextRow(r) == LET n == Len(r) IN TLCEval([i \in 1..(n + 1) |-> Add(IF i = 1 THEN <<>> ELSE r[i - 1], IF i = n + 1 THEN <<>> ELSE r[i])])
+Row7 == PascalRow(7)
+WalkInit == [N |-> 7, row |-> Row7, lag |-> PascalRow(0)]
+WalkStep == /\ kind = "walk" /\ par.N < WalkMax /\ UNCHANGED <<kind, done>>
+            /\ par' = [N |-> par.N + 1, row |-> NextRow(par.row), lag |-> NextRow(par.lag)]
+\* C(K,k) C(N-K, n-k) for K = 7 (small = TRUE) or K = N - 7, k over the support
+WalkHyp(small, n) == LET N == par.N  K == IF small THEN 7 ELSE N - 7  lo == HypLo(N, K, n)  hi == HypHi(N, K, n) IN
+   TLCEval([i \in 1..(hi - lo + 1) |-> LET k == lo + i - 1 IN
+       IF small THEN Mul(Row7[k + 1], par.lag[n - k + 1]) ELSE Mul(par.lag[k + 1], Row7[n - k + 1])])
+WalkHypRec(small, n) == LET N == par.N  K == IF small THEN 7 ELSE N - 7 IN
+   [kind |-> "hypergeometric", N |-> N, K |-> K, n |-> n, lo |-> HypLo(N, K, n), hi |-> HypHi(N, K, n),
+    den |-> par.row[n + 1], mass |-> WalkHyp(small, n),
+    meann |-> n * K, meand |-> N, varn |-> n * K * (N - K) * (N - n), vard |-> N * N * (N - 1)]
+WalkCheck == (kind = "walk" /\ WalkEmitAt(par.N)) =>
+   /\ SumB(par.row, par.N + 1) = Pow2(par.N)
+   /\ \A sm \in {TRUE, FALSE} : LET n == IF sm THEN par.N \div 2 ELSE par.N \div 3 + 3  m == WalkHyp(sm, n) IN
+         SumB(m, Len(m)) = par.row[n + 1]                                                   \* Vandermonde
+WalkEmit == (kind = "walk" /\ WalkEmitAt(par.N)) =>
+   /\ PrintT(ToJson([kind |-> "binomial", N |-> par.N, a |-> <<1>>, b |-> <<2>>, lo |-> 0, hi |-> par.N,
+                     den |-> Pow2(par.N), mass |-> par.row]))
+   /\ PrintT(ToJson(WalkHypRec(TRUE, par.N \div 2)))
+   /\ PrintT(ToJson(WalkHypRec(FALSE, par.N \div 3 + 3)))
+
+Init == \/ kind \in {"binomial", "hypergeometric"} /\ par = Null /\ done = FALSE
+        \/ WalkMax > 0 /\ kind = "walk" /\ par = WalkInit /\ done = FALSE
+Choose1 == /\ kind # "walk" /\ par = Null /\ UNCHANGED <<kind, done>>
            /\ \/ kind = "binomial" /\ \E N \in BinN, p \in BinP : (Len(p[2]) > 2 => N <= EdgeMaxN) /\ par' = [N |-> N, a |-> p[1], b |-> p[2]]
               \/ kind = "hypergeometric" /\ \E N \in HypN : \E K \in 0..N, n \in 0..N : par' = [N |-> N, K |-> K, n |-> n]
-Finish == par # Null /\ ~done /\ done' = TRUE /\ UNCHANGED <<kind, par>>
-Next == Choose1 \/ Finish
+Finish == kind # "walk" /\ par # Null /\ ~done /\ done' = TRUE /\ UNCHANGED <<kind, par>>
+Next == Choose1 \/ Finish \/ WalkStep
 Spec == Init /\ [][Next]_vars
 
 \* masses sum to the denominator; moments equal the closed forms (checked by TLC on every distribution)
